@@ -110,7 +110,7 @@ def native_build(crate, profile):
     return os.path.join(tdir, "release" if profile == "release" else "debug", "replay")
 
 
-def native_replay(crate, harness, vals, profiles=("dev", "release")):
+def native_replay(crate, harness, vals, profiles=("dev", "release"), fill=None):
     """-> dict profile -> 'fails' | 'passes' | 'mismatch' | 'buildfail'"""
     res = {}
     for pr in profiles:
@@ -119,7 +119,7 @@ def native_replay(crate, harness, vals, profiles=("dev", "release")):
             res[pr] = "buildfail"
             continue
         p = subprocess.run([exe, harness, hexvals(vals)], stdout=subprocess.PIPE, stderr=subprocess.STDOUT,
-                           env=C.env(RUST_BACKTRACE="0"), timeout=120)
+                           env=C.env(RUST_BACKTRACE="0", **({"VERIF_REPLAY_FILL": fill} if fill else {})), timeout=120)
         txt = p.stdout.decode(errors="replace")
         if p.returncode == 0 and "REPLAY-PASS" in txt:
             res[pr] = "passes"
@@ -131,14 +131,15 @@ def native_replay(crate, harness, vals, profiles=("dev", "release")):
     return res
 
 
-def miri_replay(crate, harness, vals):
+def miri_replay(crate, harness, vals, fill=None):
     """replay a counter-example of an undefined-behaviour class check (invalid/dangling pointer, double free, out of bounds)
     under Miri, which - unlike a native run - detects it; -> 'ub' | 'clean' | 'error'"""
     tdir = os.path.join(C.CACHE, "miri-" + crate)
     try:
         p = subprocess.run(["cargo", "+nightly", "miri", "run", "--offline", "--bin", "replay", "--", harness, hexvals(vals)],
                            cwd=C.crate_dir("kani/" + crate), stdout=subprocess.PIPE, stderr=subprocess.STDOUT, timeout=900,
-                           env=C.env(CARGO_TARGET_DIR=tdir, MIRIFLAGS="-Zmiri-disable-isolation", RUST_BACKTRACE="0"))
+                           env=C.env(CARGO_TARGET_DIR=tdir, MIRIFLAGS="-Zmiri-disable-isolation", RUST_BACKTRACE="0",
+                                     **({"VERIF_REPLAY_FILL": fill} if fill else {})))
     except subprocess.TimeoutExpired:
         return "error", "timeout"
     txt = p.stdout.decode(errors="replace")
@@ -259,28 +260,29 @@ def run_all(out, crate, harnesses, sources):
         pb = run_harness(crate, h, 0 if nslots == 1 else hs.index(h) % nslots, logdir, playback=True)
         cases = [c for c in pb.get("playback", []) if c["kind"] != "cover"]
         if not cases:
-            out.inconclusive.append("kani harness %s FAILED (%s) but no concrete values could be extracted; log=%s" % (
-                h.name, real[0]["desc"][:120], keep_log(pb["log"])))
-            continue
+            # no values came back (a harness without symbolic inputs, or the driver's trace parser gave up): the harness is
+            # tried as it is and on uniform fillings of its inputs; only a failure that reproduces this way is reported
+            cases = [{"kind": "assert", "desc": real[0]["desc"], "vals": [], "fill": f_} for f_ in (None, "00", "61", "01")]
         reported = False
         for c in cases:
-            rep = native_replay(crate, h.name, c["vals"])
-            unit.setdefault("replays", []).append({"check": c["desc"], "values": hexvals(c["vals"]), "native": rep})
+            fill = c.get("fill")
+            rep = native_replay(crate, h.name, c["vals"], fill=fill)
+            unit.setdefault("replays", []).append({"check": c["desc"], "values": hexvals(c["vals"]), "fill": fill, "native": rep})
             fails = [p for p in ("dev", "release") if rep.get(p) == "fails"]
             ubclass = any(w in c["desc"].lower() for w in UB_WORDS)
             if not fails and ubclass and all(rep.get(p_) == "passes" for p_ in ("dev", "release")):
-                verdict, msg = miri_replay(crate, h.name, c["vals"])
+                verdict, msg = miri_replay(crate, h.name, c["vals"], fill=fill)
                 unit["replays"][-1]["miri"] = {"verdict": verdict, "msg": msg}
                 if verdict == "ub":
                     what = "%s: %s [harness %s, values %s; a native run does not trap, Miri confirms: %s]" % (h.desc, c["desc"], h.name, hexvals(c["vals"]), msg[:200])
-                    out.violation(what, {"engine": "kani", "crate": crate, "harness": h.name, "values": hexvals(c["vals"]), "check": c["desc"], "native": rep, "miri": msg},
+                    out.violation(what, {"engine": "kani", "crate": crate, "harness": h.name, "values": hexvals(c["vals"]), "fill": fill, "check": c["desc"], "native": rep, "miri": msg},
                                   key="%s:%s" % (h.name, c["desc"][:80]))
                     reported = True
                     break
             if fails:
                 what = "%s: %s [harness %s, values %s; reproduces natively in %s]" % (
                     h.desc, c["desc"], h.name, hexvals(c["vals"]), "+".join(fails))
-                out.violation(what, {"engine": "kani", "crate": crate, "harness": h.name, "values": hexvals(c["vals"]),
+                out.violation(what, {"engine": "kani", "crate": crate, "harness": h.name, "values": hexvals(c["vals"]), "fill": fill,
                                      "check": c["desc"], "native": rep}, key="%s:%s" % (h.name, c["desc"][:80]))
                 reported = True
                 break
